@@ -338,7 +338,9 @@ def _explore(ctx: Ctx, scn, depth=6, max_runs=None):
 TRUNCATED = set()
 LOSS_SCRIPTS = [[5.0, 4.0, 4.0, 6.0, 1.0, 0.5, 0.5, 3.0, 0.25], [1.0, 2.0, 3.0, 0.5, 0.5, 4.0, 0.1, 9.0, 0.1],
                 [2.0, 0.0, 1.0, 0.0, 3.0, 0.0],   # reaches a perfect fit (best loss exactly 0)
-                [3.0, float("nan"), 2.0, float("inf"), 1.0, float("nan")]]   # batches whose loss is not finite
+                [3.0, float("nan"), 2.0, float("inf"), 1.0, float("nan")],   # batches whose loss is not finite
+                # round 9: improvements of a few parts in 10^10 - strictly better, so rewarded and the new reference
+                [5.0, 5.0 * (1 - 5e-10), 1.0, 1.0 * (1 - 2e-10), 0.5, 0.5]]
 
 
 def scenario(sessions, agent="scripted", losses=0, script=(0, 1, 2, 1, 0, 2, 2, 0), seed=1, eps=0.3, fault=None, reseed=False):
@@ -351,7 +353,8 @@ def sampled_cases(draw):
     sessions = draw(st.lists(st.integers(1, 3), min_size=1, max_size=3))
     agent = draw(st.sampled_from(["scripted", "eps"]))
     scn = {"sessions": sessions, "agent": agent,
-           "losses": draw(st.lists(st.sampled_from([5.0, 4.0, 1.0, 0.5, 2.0, 0.25, 8.0, 0.0, float("nan"), float("inf")]),
+           "losses": draw(st.lists(st.sampled_from([5.0, 4.0, 1.0, 0.5, 2.0, 0.25, 8.0, 0.0, float("nan"), float("inf"),
+                                                    4.0 * (1 - 5e-10), 0.5 * (1 - 3e-10), 1.0 * (1 - 2e-10)]),
                                    min_size=3, max_size=9)),
            "script": draw(st.lists(st.integers(0, 3), min_size=1, max_size=6)), "samplers": draw(st.integers(1, 3)),
            "alpha": draw(st.sampled_from([-1, 0.5])), "eps": draw(st.sampled_from([0.0, 0.3, 1.0])),
@@ -383,9 +386,10 @@ def run(ctx: Ctx):
     # (session list, [(agent, loss script, eps)]) - sizes measured on the repaired tree: [1] 21, [2] ~410, [3] ~1350,
     # [1,1] ~4300, [1,2] ~3500, [2,1] ~49000 schedules per variant
     S0, E1, Z2, N3, X1 = ("scripted", 0, 0.3), ("eps", 1, 0.3), ("scripted", 2, 0.3), ("scripted", 3, 0.3), ("eps", 1, 1.0)
-    plan = [([1], [S0, E1, Z2, N3, X1]), ([2], [S0, E1, Z2, N3, X1]), ([3], [S0]), ([1, 1], [S0, N3, X1]), ([1, 2], [S0, E1])]
+    T4 = ("scripted", 4, 0.3)
+    plan = [([1], [S0, E1, Z2, N3, X1]), ([2], [S0, E1, Z2, N3, X1, T4]), ([3], [S0]), ([1, 1], [S0, N3, X1]), ([1, 2], [S0, E1])]
     if not ctx.quick:
-        plan = [([1], [S0, E1, Z2, N3, X1]), ([2], [S0, E1, Z2, N3, X1]), ([3], [S0, E1]), ([1, 1], [S0, E1, Z2, N3, X1]),
+        plan = [([1], [S0, E1, Z2, N3, X1]), ([2], [S0, E1, Z2, N3, X1, T4]), ([3], [S0, E1, T4]), ([1, 1], [S0, E1, Z2, N3, X1]),
                 ([1, 2], [S0, E1, Z2, N3]), ([2, 1], [S0, N3]), ([1, 1, 1], [S0]), ([2, 2], [S0])]
     # the three largest session lists have 10^5 - 10^6 schedules each: depth-first, at most 8000 per shard and scenario
     heavy = {"[2, 1]", "[1, 1, 1]", "[2, 2]"}
